@@ -879,3 +879,287 @@ Section AgreeValue.
     lex_then_fold_narsese F fread in01 ia L E (fmt_narsese F fshow E v).
   Proof. intros Hw Hv. destruct (agree_value_fmt v Hw Hv) as ([st ->] & _ & ->). reflexivity. Qed.
 End AgreeValue.
+
+(* ================================================================================== *)
+(* 5. the enum side on the same texts; the shipped tables; variants; examples           *)
+(* ================================================================================== *)
+(* value_text with the term written as st is the text of the canonical surface input of Model/SstSent.v
+   (generalises Proofs/EnumSentP.v fmt_narsese_canon from "the tree the formatter prints" to any tree), so the
+   sentence-level parser theorem C01b_parse_narsese_render speaks about exactly these texts *)
+Section Canon.
+  Variable F : Type.
+  Variable fshow : F -> str.
+  Variable E : efmt.
+  Variables kt ki : nat.
+  Hypothesis Hft : fmt_tables_ok E kt ki = true.
+
+  Lemma sentence_text_canon bud st s :
+    sentence_text F fshow E (render E st) s = from_term E (canon_sentence F fshow kt bud st s).
+  Proof.
+    destruct (ft_parts E kt ki Hft) as (_ & _ & _ & Hp & _). destruct (Hp (s_punct s)) as (Hkw & _ & _).
+    unfold sentence_text, from_term, join_lest. cbn [map concat]. f_equal.
+    unfold tail0, tail1, tail2, tail3. cbn [canon_sentence sn_term sn_punct sn_stamp sn_truth sn_trail ropt Sst.sp rep app].
+    change (Sst.sp E 0) with (@nil N). cbn [app].
+    rewrite Hkw. f_equal. fold (jl E (fmt_stamp E (s_stamp s))).
+    fold (jl E (fmt_truth F fshow E (match s_truth s with Some t => t | None => TruthEmpty end))).
+    now rewrite <- (jl_stamp E kt ki Hft), <- (jl_truth F fshow E kt ki Hft).
+  Qed.
+
+  Theorem value_text_canon st v :
+    value_text F fshow E (render E st) v = render_narsese E (canon_narsese F fshow kt ki st v).
+  Proof.
+    destruct (ft_parts E kt ki Hft) as (_ & Hki & _ & Hp & _).
+    destruct v as [t|s|[s b]]; cbn [value_text canon_narsese fst snd].
+    - unfold render_narsese, from_term, tail0, tail1, tail2, tail3. cbn. now rewrite app_nil_r.
+    - unfold render_narsese. cbn [canon_sentence sn_lead sn_budget Sst.sp rep app]. apply sentence_text_canon.
+    - unfold render_narsese. cbn [canon_sentence sn_lead sn_budget Sst.sp rep app snd fst].
+      rewrite (sentence_text_canon (Some (canon_nums F fshow (budget_list b), ki)) st s), fmt_budget_render, Hki.
+      destruct (from_term E _) eqn:Hf; [|reflexivity].
+      exfalso. unfold from_term, tail0 in Hf. cbn [canon_sentence sn_term sn_punct ropt Sst.sp rep app] in Hf.
+      change (Sst.sp E 0) with (@nil N) in Hf. cbn [app] in Hf.
+      apply app_eq_nil in Hf as [_ Hf]. apply app_eq_nil in Hf as [Hf _].
+      destruct (Hp (s_punct s)) as (Hkw & Hne & _). congruence.
+  Qed.
+End Canon.
+
+(* ---- both pipelines on the text of a value whose term is written as ANY surface tree with well-formed
+   atoms (any spacing inside the term, derived copulas at any depth): under the sentence-level back-off
+   condition sent_unamb of Model/SstSent.v on the concrete text (a decidable condition; for the formatter's
+   own output it is what Henum's proof discharges) BOTH pipelines return v ---- *)
+Section AgreeTree.
+  Variable F : Type.
+  Variable fshow : F -> str.
+  Variable fread : str -> option F.
+  Variable fzero : F.
+  Variable in01 : F -> bool.
+  Variable ia : N -> bool.
+  Variable E : efmt.
+  Variable L : lfmt.
+  Variables kt ki : nat.
+  Hypothesis Hall : agree_value_all ia E L = true.
+  Hypothesis Hfo : unamb_fmt_ok ia E = true.
+  Hypothesis Hsok : sent_ok E = true.
+  Hypothesis Hft : fmt_tables_ok E kt ki = true.
+  Hypothesis H_empty : fread [] = None.
+  Hypothesis H_zero : in01 fzero = true.
+  Hypothesis H_rt : forall x, in01 x = true -> fread (fshow x) = Some x.
+  Hypothesis H_cs : forall x, in01 x = true -> fshow x <> [] /\ Forall (fun c => is_float_char c = true) (fshow x).
+
+  Lemma at_parse_ok : parse_ok E = true.
+  Proof.
+    destruct (av_parts ia E L Hall) as (Ha & _). destruct (all_parts ia E L Ha) as (_ & Hp & _). exact Hp.
+  Qed.
+
+  Theorem enum_parse_value_tree st v :
+    odesugar st = Some (nv_term v) -> vals_ok F in01 v = true ->
+    sent_unamb F fread fzero in01 E (SstOk.unamb ia E) (canon_narsese F fshow kt ki st v) = true ->
+    exists st', parse_narsese F fread fzero in01 ia E (value_text F fshow E (render E st) v) = EnumParser.POk v st'.
+  Proof.
+    intros Hd Hv Hu. rewrite (value_text_canon F fshow E kt ki Hft).
+    apply (parse_narsese_render F fread fzero in01 ia E Hsok H_empty H_zero (SstOk.unamb ia E)); [| |exact Hu].
+    - exact (p_term_render F ia E at_parse_ok).
+    - now apply (odesugar_canon F fshow fread in01 E kt ki Hft H_rt H_cs).
+  Qed.
+
+  Theorem agree_value_tree st v :
+    odesugar st = Some (nv_term v) -> satoms_ok ia E st = true -> vals_ok F in01 v = true ->
+    sent_unamb F fread fzero in01 E (SstOk.unamb ia E) (canon_narsese F fshow kt ki st v) = true ->
+    (exists st', parse_narsese F fread fzero in01 ia E (value_text F fshow E (render E st) v) = EnumParser.POk v st') /\
+    lex_parse ia L (value_text F fshow E (render E st) v) = LOk (lex_value_of F fshow E (lex_tree E st) v) /\
+    lex_then_fold_narsese F fread in01 ia L E (value_text F fshow E (render E st) v) = FOk v.
+  Proof.
+    intros Hd Hs Hv Hu. split; [now apply enum_parse_value_tree|].
+    exact (lex_parse_value_selfdelim F fshow fread in01 ia E L Hall H_rt H_cs Hfo st v _ Hd Hs Hv eq_refl).
+  Qed.
+
+  Corollary agree_value_tree_eq st v :
+    odesugar st = Some (nv_term v) -> satoms_ok ia E st = true -> vals_ok F in01 v = true ->
+    sent_unamb F fread fzero in01 E (SstOk.unamb ia E) (canon_narsese F fshow kt ki st v) = true ->
+    of_door F (parse_narsese F fread fzero in01 ia E (value_text F fshow E (render E st) v)) =
+    lex_then_fold_narsese F fread in01 ia L E (value_text F fshow E (render E st) v).
+  Proof. intros Hd Hs Hv Hu. destruct (agree_value_tree st v Hd Hs Hv Hu) as ([st' ->] & _ & ->). reflexivity. Qed.
+End AgreeTree.
+
+(* ---- the regenerated tables ---- *)
+Lemma plain_agree_value_all :
+  agree_value_all std_alnum FORMAT_ASCII LEX_ASCII = true /\ agree_value_all std_alnum FORMAT_LATEX LEX_LATEX = true.
+Proof. vm_compute. split; reflexivity. Qed.
+
+(* Han: the value-level conditions fail (the budget bracket 预 is a name character; bare atoms are not
+   delimited: known classes K2, K5) *)
+Lemma han_agree_value_all_fails :
+  agree_value_all std_alnum FORMAT_HAN LEX_HAN = false /\ budget_left_nonident std_alnum LEX_HAN = false /\
+  lex_clean_atoms_ok LEX_HAN std_alnum = false /\ agree_items FORMAT_HAN LEX_HAN = true.
+Proof. vm_compute. repeat split; reflexivity. Qed.
+
+Lemma plain_value_side E L : plain_pair E L ->
+  agree_value_all std_alnum E L = true /\ unamb_fmt_ok std_alnum E = true /\ fmt_space_ok E = true /\
+  arms_cover E = true /\ sent_ok E = true /\ fmt_tables_ok E 1 1 = true.
+Proof.
+  intros HP. destruct (plain_pair_side E L HP) as (_ & H2 & H3 & H4).
+  destruct plain_agree_value_all as [Ha Hl]. destruct shipped_fmt_tables_ok as (Ta & Tl & _).
+  destruct HP as [[-> ->]|[-> ->]]; repeat split; auto; apply sent_ok_shipped; unfold shipped, shipped_formats; cbn; auto.
+Qed.
+
+(* ---- ASCII and LaTeX, char::is_alphanumeric = std's table ---- *)
+Section Plain.
+  Variable F : Type.
+  Variable fshow : F -> str.
+  Variable fread : str -> option F.
+  Variable fzero : F.
+  Variable in01 : F -> bool.
+  Variable E : efmt.
+  Variable L : lfmt.
+  Hypothesis HP : plain_pair E L.
+  Hypothesis H_rt : forall x, in01 x = true -> fread (fshow x) = Some x.
+  Hypothesis H_cs : forall x, in01 x = true -> fshow x <> [] /\ Forall (fun c => is_float_char c = true) (fshow x).
+
+  (* C03 + C09, lexical pipeline, whole values: every text with the whitespace-free form of the enum
+     formatter's text of a well-formed value *)
+  Theorem lex_pipeline_plain v s :
+    wf_value std_alnum E v = true -> vals_ok F in01 v = true ->
+    idealize_env (compile L) s = idealize_env (compile L) (fmt_narsese F fshow E v) ->
+    lex_parse std_alnum L s = LOk (Readme.lex_of_narsese F fshow E v) /\
+    fold_narsese F fread in01 E (Readme.lex_of_narsese F fshow E v) = FOk v /\
+    lex_then_fold_narsese F fread in01 std_alnum L E s = FOk v.
+  Proof.
+    destruct (plain_value_side E L HP) as (Ha & Hfo & Hfs & Hcov & _).
+    exact (lex_pipeline_fmt F fshow fread in01 std_alnum E L Ha H_rt H_cs Hfo Hfs Hcov v s).
+  Qed.
+
+  (* the term inside re-spaced: n space keywords at every token boundary of the term *)
+  Theorem lex_pipeline_respaced_plain n v :
+    wf_value std_alnum E v = true -> vals_ok F in01 v = true ->
+    let text := value_text F fshow E (render E (respace n (sst E (nv_term v)))) v in
+    lex_parse std_alnum L text = LOk (Readme.lex_of_narsese F fshow E v) /\
+    lex_then_fold_narsese F fread in01 std_alnum L E text = FOk v.
+  Proof.
+    intros Hw Hv text. destruct (plain_value_side E L HP) as (Ha & Hfo & Hfs & Hcov & _).
+    assert (Hwt : wf_term std_alnum E (nv_term v) = true) by (destruct v as [t|x|[x b]]; exact Hw).
+    destruct (sst_spec std_alnum E Hfs Hcov _ Hwt) as (Hs & Hd & _).
+    pose proof (sst_satoms_ok std_alnum E _ Hcov Hwt) as Hsa.
+    destruct (lex_parse_value_selfdelim F fshow fread in01 std_alnum E L Ha H_rt H_cs Hfo
+                (respace n (sst E (nv_term v))) v text) as [H1 H2]; auto.
+    - now rewrite odesugar_respace.
+    - now rewrite satoms_ok_respace.
+    - split; [|exact H2]. rewrite H1. f_equal.
+      rewrite <- (lex_value_of_sst F fshow std_alnum E Hfs Hcov v Hw). f_equal.
+      assert (Hlt : forall t, lex_tree E (respace n t) = lex_tree E t).
+      { induction t as [arm name|ext a g items b IH|arm a g items b IH|arm a b c d x y IHx IHy] using sterm_ind';
+          cbn [respace lex_tree]; try reflexivity.
+        - f_equal. rewrite map_map. apply map_ext_in. rewrite Forall_forall in IH. exact IH.
+        - f_equal. rewrite map_map. apply map_ext_in. rewrite Forall_forall in IH. exact IH.
+        - now rewrite IHx, IHy. }
+      apply Hlt.
+  Qed.
+
+  (* the same strings written with a derived copula: the term of the value written as any statement arm over
+     the texts of two well-formed terms, any spacing around the copula; v is any value whose term is the
+     documented meaning of that statement.  Lexical pipeline: *)
+  Theorem lex_pipeline_sugar_plain (arm sp0 sp1 sp2 sp3 : nat) (a b : term) v :
+    wf_term std_alnum E a = true -> wf_term std_alnum E b = true -> vals_ok F in01 v = true ->
+    let st := SStmt arm sp0 sp1 sp2 sp3 (sst E a) (sst E b) in
+    odesugar st = Some (nv_term v) ->
+    lex_parse std_alnum L (value_text F fshow E (render E st) v) = LOk (lex_value_of F fshow E (lex_tree E st) v) /\
+    lex_then_fold_narsese F fread in01 std_alnum L E (value_text F fshow E (render E st) v) = FOk v.
+  Proof.
+    intros Hwa Hwb Hv st Hd. destruct (plain_value_side E L HP) as (Ha & Hfo & Hfs & Hcov & _).
+    apply (lex_parse_value_selfdelim F fshow fread in01 std_alnum E L Ha H_rt H_cs Hfo st v); auto.
+    unfold st. cbn [satoms_ok].
+    rewrite (sst_satoms_ok std_alnum E a Hcov Hwa), (sst_satoms_ok std_alnum E b Hcov Hwb), !andb_true_r.
+    unfold st in Hd. rewrite odesugar_stmt in Hd. destruct (nth_error parse_statement_arms arm); [reflexivity | discriminate].
+  Qed.
+
+  (* ... and both pipelines, under the back-off condition of the sentence-level enum theorem on that text *)
+  Hypothesis H_empty : fread [] = None.
+  Hypothesis H_zero : in01 fzero = true.
+
+  Theorem agree_value_tree_plain st v :
+    odesugar st = Some (nv_term v) -> satoms_ok std_alnum E st = true -> vals_ok F in01 v = true ->
+    sent_unamb F fread fzero in01 E (SstOk.unamb std_alnum E) (canon_narsese F fshow 1 1 st v) = true ->
+    (exists st', parse_narsese F fread fzero in01 std_alnum E (value_text F fshow E (render E st) v) = EnumParser.POk v st') /\
+    lex_parse std_alnum L (value_text F fshow E (render E st) v) = LOk (lex_value_of F fshow E (lex_tree E st) v) /\
+    lex_then_fold_narsese F fread in01 std_alnum L E (value_text F fshow E (render E st) v) = FOk v.
+  Proof.
+    destruct (plain_value_side E L HP) as (Ha & Hfo & _ & _ & Hsok & Hft).
+    exact (agree_value_tree F fshow fread fzero in01 std_alnum E L 1 1 Ha Hfo Hsok Hft H_empty H_zero H_rt H_cs st v).
+  Qed.
+
+  (* C03 for whole values: the enum formatter's own output, given the enum side (C01 for whole values) *)
+  Hypothesis Henum : forall v : narsese F, wf_value std_alnum E v = true -> vals_ok F in01 v = true ->
+    exists st, parse_narsese F fread fzero in01 std_alnum E (fmt_narsese F fshow E v) = EnumParser.POk v st.
+
+  Theorem agree_value_plain v :
+    wf_value std_alnum E v = true -> vals_ok F in01 v = true ->
+    (exists st, parse_narsese F fread fzero in01 std_alnum E (fmt_narsese F fshow E v) = EnumParser.POk v st) /\
+    lex_parse std_alnum L (fmt_narsese F fshow E v) = LOk (Readme.lex_of_narsese F fshow E v) /\
+    lex_then_fold_narsese F fread in01 std_alnum L E (fmt_narsese F fshow E v) = FOk v.
+  Proof.
+    destruct (plain_value_side E L HP) as (Ha & Hfo & Hfs & Hcov & _).
+    exact (agree_value_fmt F fshow fread in01 std_alnum E L Ha H_rt H_cs Hfo Hfs Hcov fzero Henum v).
+  Qed.
+
+  Corollary agree_value_plain_eq v :
+    wf_value std_alnum E v = true -> vals_ok F in01 v = true ->
+    of_door F (parse_narsese F fread fzero in01 std_alnum E (fmt_narsese F fshow E v)) =
+    lex_then_fold_narsese F fread in01 std_alnum L E (fmt_narsese F fshow E v).
+  Proof. intros Hw Hv. destruct (agree_value_plain v Hw Hv) as ([st ->] & _ & ->). reflexivity. Qed.
+End Plain.
+
+(* ---- non-vacuity ---- *)
+(* toy oracles of Proofs/EnumSentP.v: a float is its own decimal text.
+   `$0.5;0.25$ <rob --> (/, a_b, _, +7)>. :!-5: %1;0.9%`: a task whose term contains an image (placeholder
+   atom with an empty name) and the name `a_b` (contains the keyword `_`): its lexical value is OUTSIDE
+   vocab_ok (C02's domain) and inside lvalue_ok. *)
+Definition ex_value_task : narsese str :=
+  NTask (SJudgement (TBox2 Inheritance (TName Word [114; 111; 98]%N)
+                           (TImg ImageExtension 1 [TName Word [97; 95; 98]%N; TNum Interval 7]))
+                    (TruthDouble [49]%N [48; 46; 57]%N) (Fixed (-5)%Z),
+         BudgetDouble [48; 46; 53]%N [48; 46; 50; 53]%N).
+Definition ex_value_question : narsese str :=
+  NSentence (SQuestion (TName VariableQuery [119; 104; 111]%N) Present).
+Definition ex_value_term : narsese str := NTerm (TUnit Placeholder).
+
+Definition pres_is (v : narsese str) (r : EnumParser.pres str (narsese str)) : bool :=
+  match of_door str r with FOk v' => true | _ => false end.
+
+Definition ex_value_check (p : efmt * lfmt) (v : narsese str) : bool :=
+  let E := fst p in let L := snd p in
+  wf_value std_alnum E v && vals_ok str toy_in01 v &&
+  sent_unamb str toy_read toy_zero toy_in01 E (SstOk.unamb std_alnum E)
+             (canon_narsese str toy_show 1 1 (sst E (nv_term v)) v) &&
+  lvalue_ok std_alnum L (Readme.lex_of_narsese str toy_show E v).
+
+Example ex_value_hyps :
+  forallb (fun p => ex_value_check p ex_value_task && ex_value_check p ex_value_question && ex_value_check p ex_value_term)
+          [(FORMAT_ASCII, LEX_ASCII); (FORMAT_LATEX, LEX_LATEX)] = true /\
+  vocab_ok LEX_ASCII std_alnum (Readme.lex_of_narsese str toy_show FORMAT_ASCII ex_value_task) = false /\
+  vocab_ok LEX_ASCII std_alnum (Readme.lex_of_narsese str toy_show FORMAT_ASCII ex_value_term) = false.
+Proof. vm_compute. repeat split; reflexivity. Qed.
+
+(* re-computed: the text, the lexical value, and the common result of the two pipelines *)
+Example ex_value_ascii_text :
+  let v := ex_value_task in
+  let text := fmt_narsese str toy_show FORMAT_ASCII v in
+  text = [36; 48; 46; 53; 59; 48; 46; 50; 53; 36; 32; 60; 114; 111; 98; 32; 45; 45; 62; 32; 40; 47; 44; 32; 97; 95; 98; 44; 32;
+          95; 44; 32; 43; 55; 41; 62; 46; 32; 58; 33; 45; 53; 58; 32; 37; 49; 59; 48; 46; 57; 37]%N /\
+  lex_parse std_alnum LEX_ASCII text = LOk (Readme.lex_of_narsese str toy_show FORMAT_ASCII v) /\
+  lex_then_fold_narsese str toy_read toy_in01 std_alnum LEX_ASCII FORMAT_ASCII text = FOk v /\
+  of_door str (parse_narsese str toy_read toy_zero toy_in01 std_alnum FORMAT_ASCII text) = FOk v.
+Proof. vm_compute. repeat split; reflexivity. Qed.
+
+(* the same text with Unicode whitespace inserted and with the derived copula `{--` written in the term:
+   `<rob {-- x>.` means <{rob} --> x>. *)
+Example ex_value_sugar_ascii :
+  let st := SStmt arm_instance 0 2 0 1 (SAtom arm_word [114; 111; 98]%N) (SAtom arm_word [120]%N) in
+  let v : narsese str := NSentence (SJudgement (TBox2 Inheritance (TSet SetExtension [TName Word [114; 111; 98]%N]) (TName Word [120]%N))
+                                               TruthEmpty Eternal) in
+  let text := value_text str toy_show FORMAT_ASCII (render FORMAT_ASCII st) v in
+  odesugar st = Some (nv_term v) /\ satoms_ok std_alnum FORMAT_ASCII st = true /\
+  sent_unamb str toy_read toy_zero toy_in01 FORMAT_ASCII (SstOk.unamb std_alnum FORMAT_ASCII)
+             (canon_narsese str toy_show 1 1 st v) = true /\
+  text = [60; 114; 111; 98; 32; 32; 123; 45; 45; 120; 32; 62; 46]%N /\
+  lex_then_fold_narsese str toy_read toy_in01 std_alnum LEX_ASCII FORMAT_ASCII text = FOk v /\
+  lex_then_fold_narsese str toy_read toy_in01 std_alnum LEX_ASCII FORMAT_ASCII ([9; 160]%N ++ text ++ [12288]%N) = FOk v /\
+  of_door str (parse_narsese str toy_read toy_zero toy_in01 std_alnum FORMAT_ASCII text) = FOk v.
+Proof. vm_compute. repeat split; reflexivity. Qed.
